@@ -121,8 +121,11 @@ def random_transfer(
         else:
             raise TypeError(f"Ballot {ballot} has no ranking.")
 
+    # only ballots with a next choice can be transferred; if they are fewer than the
+    # surplus, all of them move on
+    transferable_ballots = [b for b in winner_ballots if b.ranking]
     surplus_ballots = random.sample(
-        [b for b in winner_ballots if b.ranking], int(fpv) - threshold
+        transferable_ballots, min(int(fpv) - threshold, len(transferable_ballots))
     )
     updated_ballots += surplus_ballots
 
